@@ -17,7 +17,9 @@ for line in open(conflog):
             conf = d
 assert conf is not None, f"{sid} not confirmed in {conflog}"
 assert conf["demo_exit_clean"] == 0 and conf["demo_exit_patched"] != 0, conf
-assert " passed" in conf["suite_with_patch"] and "failed" not in conf["suite_with_patch"], conf
+import re
+
+assert " passed" in conf["suite_with_patch"] and not re.search(r"\d+ (failed|error)", conf["suite_with_patch"]), conf
 dst = os.path.join(HERE, "seeded", sid)
 os.makedirs(dst, exist_ok=True)
 shutil.copy(os.path.join(stage, f"patch_{n}.diff"), os.path.join(dst, "patch.diff"))
